@@ -2807,9 +2807,9 @@ int32 parseFinished(ssl_t *ssl, int32 hsLen,
 #ifdef USE_DTLS
     if (ACTV_VER(ssl, v_dtls_any))
     {
-        /* A successful parse of the FINISHED message means the record sequence
-           numbers have been reset so we need to clear out our replay detector */
-        zeroSixByte(ssl->lastRsn);
+        /* The replay window was cleared when the epoch changed (CCS parse or
+           epoch adoption in matrixSslDecode); it already contains this
+           FINISHED record and must not be touched here */
 
         /* This will just be set between CCS parse and FINISHED parse */
         ssl->parsedCCS = 1;
